@@ -6,6 +6,7 @@ import ast
 
 from vlib.core import AnalysisError, Report
 from vlib.guards import GuardWalker
+from vlib.match import X, deref, inlined_bodies, nodes
 from vlib.srcindex import SourceIndex, attr_chain, unparse, walk_no_nested, mangle
 from vlib.typer import Typer
 
@@ -182,14 +183,12 @@ def check_identity(idx, typer, rule, f, call: ast.Call) -> None:
 	if ident_expr is None:
 		rule.violate(f'{tag}:identity', where, 'caches.get(...) without identity: the cache file would never be invalidated')
 		return
-	# resolve a local name to its dict literal
-	if isinstance(ident_expr, ast.Name):
-		name = ident_expr.id
-		for n in walk_no_nested(f.node):
-			if isinstance(n, ast.Assign) and len(n.targets) == 1 and isinstance(n.targets[0], ast.Name) and n.targets[0].id == name:
-				ident_expr = n.value
+	fx = X(f)
+	xcall = next((n for n in nodes(fx, ast.Call) if (n.lineno, n.col_offset) == (call.lineno, call.col_offset)), call)
+	ident_expr = deref(fx, next((k.value for k in xcall.keywords if k.arg == 'identity'), ident_expr))
+	key_expr = xcall.args[0] if xcall.args else key_expr
 	if not isinstance(ident_expr, ast.Dict):
-		rule.undecided(f'{tag}:identity', where, f'identity is not a dict literal: {unparse(ident_expr)}')
+		rule.skip(f'{tag}:identity', where, f'identity is not a dict literal: {unparse(ident_expr)}')
 		return
 	ident_src = [unparse(v) for v in ident_expr.values]
 	# a stamp must enter the identity losslessly: str(<loader>.mtime(p)) / <loader>.hash(p); rounding or truncation lets an edit keep the old cache file name
@@ -202,17 +201,18 @@ def check_identity(idx, typer, rule, f, call: ast.Call) -> None:
 	# locals that feed the key (e.g. basepath = module_path_to_filepath(module_path))
 	derived: dict[str, str] = {}
 	for n in walk_no_nested(f.node):
-		if isinstance(n, ast.Assign) and len(n.targets) == 1 and isinstance(n.targets[0], ast.Name):
-			derived[n.targets[0].id] = unparse(n.value)
+		tgt = n.targets[0] if isinstance(n, ast.Assign) and len(n.targets) == 1 else n.target if isinstance(n, ast.AnnAssign) and n.value is not None else None
+		if isinstance(tgt, ast.Name):
+			derived[tgt.id] = unparse(n.value)
 	def covered(text: str) -> bool:
 		return any(text in s for s in ident_src) or text in key_src or any(text in derived.get(k, '') for k in [key_src])
 	# the factory: the nested function passed to the decorator
 	factories = [g for q, g in f.module.functions.items() if q.startswith(f.qualname + '.<locals>.')]
 	if not factories:
-		rule.undecided(f'{tag}:factory', where, 'no nested factory function found')
+		rule.skip(f'{tag}:factory', where, 'no nested factory function found')
 		return
 	for fac in factories:
-		for n in ast.walk(fac.node):
+		for n in [x for body in inlined_bodies(fac) for x in ast.walk(body)]:
 			# setting attributes read by the factory
 			if isinstance(n, ast.Attribute) and isinstance(n.value, ast.Attribute) and n.value.attr.endswith('setting') and isinstance(n.ctx, ast.Load):
 				t = unparse(n)
